@@ -2,9 +2,28 @@
 import sys, json, os
 sys.path.insert(0, os.path.dirname(os.path.dirname(os.path.abspath(__file__))))
 from kverif.eql import pretty
+
+def show_tree(block, blocks, indent=0, kind="base"):
+    i = blocks.index(block)
+    pad = "    " * indent
+    conds = ", ".join(pretty.cond(c) for c in block["conds"])
+    head = "with query:   # base: " + conds if kind == "base" else f"with {kind}({conds}):"
+    print(pad + head)
+    if block["args"] is not None:
+        print(pad + f"    Add(views, K{i}(" + ", ".join(f"v{j}" for j in block["args"]) + "))")
+    for ch in block["children"]:
+        show_tree(ch["block"], blocks, indent + 1, ch["kind"])
+
 for p in sys.argv[1:]:
     d = json.load(open(p))
     print("#", p, d.get("kind"), d.get("features"))
-    print(pretty.query(d["ir"]))
+    ir = d["ir"]
+    if "tree" in ir:
+        from kverif.checks.c08 import blocks_in_order
+        q = dict(ir, dvars=[], conds=[], sel=dict(kind="entity", terms=[]))
+        print(pretty.query(q).rsplit("\n", 1)[0])
+        show_tree(ir["tree"], blocks_in_order(ir["tree"]))
+    else:
+        print(pretty.query(ir))
     print("  ->", (d.get("detail") or "")[:400].replace("\n", " | "))
     print()
